@@ -26,7 +26,7 @@ class WallClock(KeyboardInterrupt):
     to the event loop (derived from KeyboardInterrupt so that asyncio lets it through a Task step)"""
 
 
-WALL_LIMIT = 5.0
+WALL_LIMIT = float(__import__("os").environ.get("VERIF_WALL_LIMIT", "15"))   # s of wall clock per settle(); a healthy one needs milliseconds
 
 
 def _alarm(signum, frame):
